@@ -118,19 +118,15 @@ Theorem C15_view_of_dotted_app_refuted :
 Proof. exact view_of_dotted_app_refuted. Qed.
 Print Assumptions C15_view_of_dotted_app_refuted.
 
-(* enum items: with pairwise different values every enumerator is listed exactly once (the lines of an enum block are
-   given by C15_dm_blocks_exact: header, enum_lines, brace) *)
-Theorem C15_enum_items_exact_partial : forall items, NoDup (map snd items) ->
-  Permutation (enum_lines items) (map (fun x => IItem (fst x)) items).
-Proof. exact enum_items_exact_partial. Qed.
-Print Assumptions C15_enum_items_exact_partial.
+(* enum items, full since cdeb394 (repeated values included): every enumerator is listed exactly once, in the order
+   of the values (the lines of an enum block are given by C15_dm_blocks_exact: header, enum_lines, brace) *)
+Theorem C15_enum_items_exact : forall items, Permutation (enum_lines items) (map (fun x => IItem (fst x)) items).
+Proof. exact enum_items_exact. Qed.
+Print Assumptions C15_enum_items_exact.
 
-(* ... refuted in full: of two enumerators with one value one is listed twice, the other not at all *)
-Theorem C15_enum_items_exact_refuted : exists es o a n1 n2,
-  draw None es = Ok o /\ In {| e_app := [2%positive]; e_name := [4%positive]; e_def := DEnum [(n1, 5%Z); (n2, 5%Z)] |} es /\
-  n1 <> n2 /\ o = [IClass a [2%positive; 4%positive] HEnum; IItem n2; IItem n2; IEnd].
-Proof. exact enum_items_exact_refuted. Qed.
-Print Assumptions C15_enum_items_exact_refuted.
+Theorem C15_enum_items_sorted : forall items, Sorted.Sorted val_le (sort_items items).
+Proof. exact enum_items_sorted. Qed.
+Print Assumptions C15_enum_items_sorted.
 
 (* `sysl datamodel` (datamodel.go): which view is stored under which output name *)
 Theorem C15_direct_whole_model : forall output apps m, gen_models (WDirect false output apps) = Some m ->
